@@ -75,7 +75,7 @@ func cmdPinNames(args []string) {
 				l := lines[fc.Line-1]
 				names := fc.ParamNames[len(fc.Captures):]
 				add := ""
-				if !strings.Contains(l, " params ") && len(names) > 0 {
+				if !strings.Contains(l, " params ") && (len(names) > 0 || strings.Contains(fc.QualName, "$")) {
 					add += " params (" + strings.Join(names, ", ") + ")"
 				}
 				tail := ""
